@@ -48,6 +48,32 @@ fn canary() -> Vec<Outcome> {
     out
 }
 
+/// digest of the canary calls plus a few hundred distinct sample points: what the
+/// environment leg compares between processes started with different environments
+pub fn env_canary_digest() -> u64 {
+    use crate::sampler::{build, Built, Settings};
+    let mut h = 0xe47u64;
+    for o in canary() {
+        h = mix(h, crate::model::outcome_digest(&o));
+    }
+    crate::ctx::install(usize::MAX, None, crate::ctx::PreemptPlan::default());
+    let mut r = crate::util::SplitMix::new(0xe4711);
+    for g in crate::workload::named_graphs() {
+        if let Built::Ok(s) = build(&g) {
+            let dim = s.dimension();
+            let ed: crate::sampler::EdgeData =
+                g.edges.iter().map(|e| (if e.massive { Some(1.0f64.to_bits()) } else { None }, vec![0.25f64.to_bits(); g.d])).collect();
+            for _ in 0..120 {
+                let pt: Vec<u64> = (0..dim).map(|_| r.unit_open().to_bits()).collect();
+                h = mix(h, crate::model::outcome_digest(&s.sample_x(&pt, &ed, &Settings::plain())));
+            }
+            h = mix(h, s.image().digest());
+        }
+    }
+    crate::ctx::uninstall();
+    h
+}
+
 static CANARY: std::sync::Mutex<Option<Vec<Outcome>>> = std::sync::Mutex::new(None);
 
 pub fn canary_check(r: &mut OneResult) {
@@ -391,7 +417,7 @@ impl Property for ScenarioProp {
                 let mut c = sc.clone();
                 let mut touched = false;
                 match &mut c.clients[ci].ops[oi] {
-                    Op::SampleX { st, .. } | Op::SampleRng { st, .. } | Op::Aborted { st, .. } | Op::AbortedRng { st, .. } => {
+                    Op::SampleX { st, .. } | Op::SampleXP { st, .. } | Op::SampleRng { st, .. } | Op::Aborted { st, .. } | Op::AbortedRng { st, .. } => {
                         if *st != crate::sampler::Settings::plain() {
                             *st = crate::sampler::Settings::plain();
                             touched = true;
@@ -422,7 +448,7 @@ impl Property for ScenarioProp {
                 // only valid if ops do not carry graph-shaped data: skip when they do
                 let shaped = sc.clients.iter().any(|c: &Client| {
                     c.ops.iter().any(|o| {
-                        matches!(o, Op::SampleX { .. } | Op::SampleRng { .. } | Op::Aborted { .. } | Op::AbortedAny { .. } | Op::AbortedRng { .. } | Op::Burst { .. } | Op::Repeat { .. } | Op::Alt(_))
+                        matches!(o, Op::SampleX { .. } | Op::SampleRng { .. } | Op::Aborted { .. } | Op::AbortedAny { .. } | Op::AbortedRng { .. } | Op::Burst { .. } | Op::SampleXP { .. } | Op::Repeat { .. } | Op::Alt(_))
                     })
                 });
                 if shaped {
